@@ -127,6 +127,8 @@ func TestVerifMirrorBadTarget(t *testing.T) {
 	ioutil.WriteFile(out, b, 0644)
 }
 
+var mSrcPorts = []int{40000, 55117, 55118, 4739, 6343, 9996, 2055, 1, 65535, 1024, 0}
+
 func TestVerifMirror(t *testing.T) {
 	in, out := os.Getenv("VERIF_CASES"), os.Getenv("VERIF_OUT")
 	if in == "" {
@@ -151,6 +153,10 @@ func TestVerifMirror(t *testing.T) {
 		opts.IPFIXUDPSize = other
 	}
 	opts.Verbose = os.Getenv("VERIF_VERBOSE") == "1" // "-verbose": what is logged goes nowhere here, but it is computed
+	if os.Getenv("VERIF_SAMEPORT") == "1" {
+		// the collector itself listens on the same port NUMBER as the third party, at another address of this host
+		opts.IPFIXAddr, opts.IPFIXPort, opts.SFlowAddr, opts.SFlowPort = "127.0.9.9", port, "127.0.9.9", port
+	}
 	mCache = ipfix.GetCache("")
 
 	// the third-party collector: a UDP socket on the mirror port (so that the port is open) and a raw
@@ -256,12 +262,13 @@ func TestVerifMirror(t *testing.T) {
 			time.Sleep(8 * time.Millisecond)
 		}
 		// back to back: the later datagrams are handled while the earlier ones still wait in the mirror queue
-		for _, c := range cases[lo:hi] {
+		for ci, c := range cases[lo:hi] {
 			src := make(net.IP, len(c.Src))
 			for i, x := range c.Src {
 				src[i] = byte(x)
 			}
-			raddr := &net.UDPAddr{IP: src, Port: 40000}
+			// exporters send from any port: the mirror's own source ports, the well-known ones, the extremes
+			raddr := &net.UDPAddr{IP: src, Port: mSrcPorts[(lo+ci)%len(mSrcPorts)]}
 			// what the receive loop does: a pooled buffer, the datagram read into it (at most len(buffer) octets)
 			switch proto {
 			case "ipfix":
